@@ -134,7 +134,9 @@ def run_C06(ctx):
     scen = core.generate(ctx, "MC_Resp", "Gen_Resp.cfg", tag="genresp")["scenarios"]
     # byte-level fuzz inside every head class: arbitrary bodies
     fuzz = []
-    for s in core.sample(ctx.rng, scen, 3000 if quick else 30000):
+    # (not on top of the "flood" class: a random prefix may declare gigabytes, and skipping a message that is over the
+    #  read limit legitimately reads as much -- the bound on what is drained belongs to the class's own first message)
+    for s in core.sample(ctx.rng, [x for x in scen if x["body"] != "flood"], 3000 if quick else 30000):
         fuzz.append(dict(s, fuzz=ctx.rng.choice([1, 4, 5, 6, 9, 17, 64, 300])))
     tf = core.run_runner(ctx, "resp", scen + fuzz, tag="resp", args=["-hang", "20s"])
     acc, rej = core.validate(ctx, "TraceResp", tf, tag="resp", sigfn=sig_resp)
